@@ -22,9 +22,9 @@ pinned tree:
 Core Lean only.  Names are `List Char` (Python `str` slicing = `take`/`drop`).
 
 Not modelled (see harness/props/c13.py ASSUMPTIONS): notifiers (no handler is
-attached in this cluster, so `call_notifiers` is never entered), the
-`trait_added` event fired by `get_prefix_trait`/`add_trait` (a no-op while
-`trait_added` keeps its `HasTraits` declaration), `property` traits, the
+attached in this cluster apart from the `trait_added` listeners of `Obj.hooks`,
+so `call_notifiers` is otherwise never entered; `trait_added` is assumed to keep
+its `HasTraits` declaration), `property` traits, the
 semantics of `delegate` traits (their resolution *is* modelled; access goes to
 an opaque callback), `NULL` vs empty `__dict__` / instance-trait dict (the code
 treats both alike on every path transcribed here), callable / container default
@@ -197,10 +197,15 @@ def mkClass (bases : List Cls) (decls : List (Name × Trait)) : Cls :=
 
 /-! ### Objects and the world -/
 
+/-- `hooks`: the `trait_added` listeners of the object that matter for C13,
+`obj.on_trait_change(h, 'trait_added')` with
+`h = lambda new: obj.add_trait(new, t) if new.startswith(p)`, as pairs `(p, t)`
+in registration order. -/
 structure Obj where
   cls : Nat
   itraits : Map Trait := []
   dict : Map Val := []
+  hooks : List (Name × Trait) := []
   deriving DecidableEq, Repr, Inhabited
 
 structure World where
@@ -251,26 +256,37 @@ def prefixTrait (c : Cls) (o : Obj) (name : Name) (isSet : Bool) : Except Exc Tr
       | some e => .ok e.2
       | none => .error .other                              -- 3185 SystemError
 
+/-- `obj.trait_added = name` (ctraits.c:633, has_traits.py:2872) as far as it
+matters here: every listener whose prefix matches runs `add_trait(name, t)`.
+At both firing sites a trait of that name already exists (the class entry just
+cached / the instance trait just added), so the nested `add_trait` only sets
+`itrait_dict[name]` and does not fire again (has_traits.py:2835-2872). -/
+def fireTraitAdded (o : Obj) (name : Name) : Obj :=
+  o.hooks.foldl (fun o h =>
+    if prefixMatches h.1 name then { o with itraits := o.itraits.set name h.2 } else o) o
+
 /-- `get_prefix_trait(obj, name, is_set)` (ctraits.c:622-643): resolve, **store
-the result in the class dictionary**, fire `trait_added` (not modelled), return
-`get_trait(obj, name, 0)`. -/
-def getPrefixTrait (w : World) (o : Obj) (c : Cls) (name : Name) (isSet : Bool) :
+the result in the class dictionary**, fire `trait_added` (listeners may add an
+instance trait for this very name), then return `get_trait(obj, name, 0)` — the
+name is resolved *again*, so that an instance trait added meanwhile governs. -/
+def getPrefixTrait (w : World) (oi : Nat) (o : Obj) (c : Cls) (name : Name) (isSet : Bool) :
     World × Except Exc Trait :=
   match prefixTrait c o name isSet with
   | .error e => (w, .error e)
   | .ok t =>
-    let c' : Cls := { c with ctraits := c.ctraits.set name t }
-    ({ w with classes := w.classes.set o.cls c' },
-     .ok (match o.itraits.get name with | some it => it | none => t))
+    let c' : Cls := { c with ctraits := c.ctraits.set name t }       -- 630
+    let o' : Obj := fireTraitAdded o name                            -- 633
+    ({ classes := w.classes.set o.cls c', objs := w.objs.set oi o' },
+     .ok (match o'.itraits.get name with | some it => it | none => t))   -- 637
 
 /-- Lookup order of `has_traits_setattro` (ctraits.c:654-662). -/
-def resolveSet (w : World) (o : Obj) (c : Cls) (name : Name) : World × Except Exc Trait :=
+def resolveSet (w : World) (oi : Nat) (o : Obj) (c : Cls) (name : Name) : World × Except Exc Trait :=
   match o.itraits.get name with
   | some t => (w, .ok t)
   | none =>
     match c.ctraits.get name with
     | some t => (w, .ok t)
-    | none => getPrefixTrait w o c name true
+    | none => getPrefixTrait w oi o c name true
 
 /-! ### Access policies per kind -/
 
@@ -353,6 +369,7 @@ inductive Op where
   | addTrait (o : Nat) (n : Name) (t : Trait)
   | removeTrait (o : Nat) (n : Name)
   | getTrait (o : Nat) (n : Name) (inst : Int)
+  | hook (o : Nat) (p : Name) (t : Trait)    -- on_trait_change(add_trait-listener, 'trait_added')
   deriving Repr
 
 inductive Out where
@@ -364,18 +381,20 @@ inductive Out where
   | obj (i : Nat)
   deriving DecidableEq, Repr
 
-def setDict (w : World) (oi : Nat) (o : Obj) (d : Map Val) : World :=
-  { w with objs := w.objs.set oi { o with dict := d } }
+/-- `obj.__dict__ = d` on the object as it is *now* (a `trait_added` listener may
+have changed its instance traits during the resolution). -/
+def setDict (w : World) (oi : Nat) (d : Map Val) : World :=
+  { w with objs := w.objs.modify oi (fun o => { o with dict := d }) }
 
 /-- `has_traits_setattro(obj, name, value)`; `value = none` is `delattr`. -/
 def setattro (E : Env) (w : World) (oi : Nat) (o : Obj) (c : Cls) (name : Name)
     (value : Option Val) : World × Except Exc Out :=
-  match resolveSet w o c name with
+  match resolveSet w oi o c name with
   | (w', .error e) => (w', .error e)
   | (w', .ok t) =>
     match setattrKind E t o.dict name value with
     | .error e => (w', .error e)
-    | .ok d => (setDict w' oi o d, .ok .done)
+    | .ok d => (setDict w' oi d, .ok .done)
 
 /-- `has_traits_getattro(obj, name)` (ctraits.c:836-884). -/
 def getattro (E : Env) (w : World) (oi : Nat) (o : Obj) (c : Cls) (name : Name) :
@@ -387,17 +406,17 @@ def getattro (E : Env) (w : World) (oi : Nat) (o : Obj) (c : Cls) (name : Name) 
     | some t =>
       match getattrKind E t o.dict name with
       | .error e => (w, .error e)
-      | .ok (v, d) => (setDict w oi o d, .ok (.val v))
+      | .ok (v, d) => (setDict w oi d, .ok (.val v))
     | none =>
       match E.classAttr name with                   -- 872-875 PyObject_GenericGetAttr
       | some v => (w, .ok (.val v))
       | none =>
-        match getPrefixTrait w o c name false with  -- 879-881
+        match getPrefixTrait w oi o c name false with  -- 879-881
         | (w', .error e) => (w', .error e)
         | (w', .ok t) =>
           match getattrKind E t o.dict name with
           | .error e => (w', .error e)
-          | .ok (v, d) => (setDict w' oi o d, .ok (.val v))
+          | .ok (v, d) => (setDict w' oi d, .ok (.val v))
 
 /-- `get_trait(obj, name, instance)` (ctraits.c:890-979) for
 `instance ∈ {2, 1, 0, -1}` (and `-2` when no delegate is involved). -/
@@ -414,7 +433,7 @@ def getTrait (w : World) (oi : Nat) (o : Obj) (c : Cls) (name : Name) (inst : In
         | none =>
           if inst = 0 then (w, .ok none)            -- 924-927
           else
-            match getPrefixTrait w o c name false with   -- 928
+            match getPrefixTrait w oi o c name false with   -- 928
             | (w', .error e) => (w', .error e)
             | (w', .ok t) => (w', .ok (some t))
       match found with
@@ -423,13 +442,18 @@ def getTrait (w : World) (oi : Nat) (o : Obj) (c : Cls) (name : Name) (inst : In
       | (w', .ok (some t)) =>
         if inst ≤ 0 then (w', .ok (.trait (some t)))     -- 936-939
         else                                              -- 941-975: clone into the instance dict
-          ({ w' with objs := w'.objs.set oi { o with itraits := o.itraits.set name t } },
+          ({ w' with objs := w'.objs.modify oi (fun o => { o with itraits := o.itraits.set name t }) },
            .ok (.trait (some t)))
 
 /-- `HasTraits.add_trait(name, trait)` (has_traits.py:2801-2872) for traits
-without `_items` / mapped companions. -/
-def addTrait (w : World) (oi : Nat) (o : Obj) (name : Name) (t : Trait) : World × Except Exc Out :=
-  ({ w with objs := w.objs.set oi { o with itraits := o.itraits.set name t } }, .ok .done)
+without `_items` / mapped companions: `trait_added` fires when no trait of that
+name existed (2835, 2871-2872). -/
+def addTrait (w : World) (oi : Nat) (o : Obj) (c : Cls) (name : Name) (t : Trait) : World × Except Exc Out :=
+  let o1 : Obj := { o with itraits := o.itraits.set name t }
+  let o2 : Obj := match trait0 c o name with
+    | some _ => o1
+    | none => fireTraitAdded o1 name
+  ({ w with objs := w.objs.set oi o2 }, .ok .done)
 
 /-- `HasTraits.remove_trait(name)` (has_traits.py:2874-2911). -/
 def removeTrait (w : World) (oi : Nat) (o : Obj) (c : Cls) (name : Name) : World × Except Exc Out :=
@@ -466,7 +490,9 @@ def step (E : Env) (w : World) : Op → World × Except Exc Out
   | .get oi n => withObj w oi (fun o c => getattro E w oi o c n)
   | .set oi n v => withObj w oi (fun o c => setattro E w oi o c n (some v))
   | .del oi n => withObj w oi (fun o c => setattro E w oi o c n none)
-  | .addTrait oi n t => withObj w oi (fun o _ => addTrait w oi o n t)
+  | .addTrait oi n t => withObj w oi (fun o c => addTrait w oi o c n t)
+  | .hook oi p t => withObj w oi (fun o _ =>
+      ({ w with objs := w.objs.set oi { o with hooks := o.hooks ++ [(p, t)] } }, .ok .done))
   | .removeTrait oi n => withObj w oi (fun o c => removeTrait w oi o c n)
   | .getTrait oi n inst => withObj w oi (fun o c => getTrait w oi o c n inst)
 
